@@ -37,7 +37,8 @@ def build(ctx):
     import harness.util as _U
     _U.PRELUDE = 3      # every third object (by crc32 of its sequence) answers after a query history (util.prelude)
     _U.DECORATE = 4     # every fourth sequence is handed to the constructor in another accepted spelling (util.decorate)
-    seqs = sequences(ctx)
+    seqs = sequences(ctx, lmax_t=150)      # the in-Coq delta-max search is quadratic in N with a large constant
+    ctx.rng.shuffle(seqs)                  # long sequences spread over the shards
     res = pmap(_kdm, seqs)
     cases = []
     ctx.direct_failures = []
@@ -49,7 +50,7 @@ def build(ctx):
         k, dl, dm = v
         nt = len(s) >= 6 and any(c in 'KRDE' for c in s) and dm > 0
         cases.append(Case('(%s, %s, %s, %s)' % (cstr(s), cq(k), cq(dl), cq(dm)), d, key=s, nontrivial=nt))
-    return [CaseSet('C01', IMPORTS, 'string * Q * Q * Q', 'check_c01', cases, shard=400)]
+    return [CaseSet('C01', IMPORTS, 'string * Q * Q * Q', 'check_c01', cases, shard=250)]
 
 
 def post(ctx, cases, failing, known_lines):
